@@ -208,7 +208,10 @@ func c06Probe(r *e1run) {
 			}
 		}
 		// malformed directives: immediate 400
-		for _, q := range []string{"_HLS_msn=x", "_HLS_part=1", "_HLS_msn=-1", "_HLS_msn=99999999999999999999999", fmt.Sprintf("_HLS_msn=%d&_HLS_part=x", open), fmt.Sprintf("_HLS_msn=%d&_HLS_part=-1", open)} {
+		for _, q := range []string{"_HLS_msn=x", "_HLS_part=1", "_HLS_msn=-1", "_HLS_msn=99999999999999999999999", fmt.Sprintf("_HLS_msn=%d&_HLS_part=x", open), fmt.Sprintf("_HLS_msn=%d&_HLS_part=-1", open),
+			// numbers in forms other than plain decimal digits are not numbers of the protocol (a sign, a fraction, a radix prefix, white space)
+			fmt.Sprintf("_HLS_msn=%%2B%d", open), fmt.Sprintf("_HLS_msn=%d&_HLS_part=%%2B0", open), fmt.Sprintf("_HLS_msn=%d.0", open), fmt.Sprintf("_HLS_msn=0x%x", open),
+			fmt.Sprintf("_HLS_msn=%%20%d", open), fmt.Sprintf("_HLS_msn=%d&_HLS_part=-0", open), fmt.Sprintf("_HLS_msn=%d&_HLS_part=1e0", open-1), fmt.Sprintf("_HLS_msn=%d&_HLS_part=-18446744073709551615", open-1)} {
 			rr, blocked := r.probe(path + "?" + q)
 			r.nProbes++
 			if blocked || rr.Status != 400 {
